@@ -9,11 +9,12 @@ use crate::props::PropDef;
 use crate::runner::{CheckResult, GenPart, PartDyn, Stats, Tier};
 use crate::{ensure, fail};
 use proptest::prelude::*;
+use serde::{Deserialize, Serialize};
 
 pub fn def() -> PropDef {
     PropDef {
         id: "C05",
-        rule: "generated histories (1..12 ops) on one encoder or decoder of every family x engine: reset to other counts / shard size / rate, complete rounds (result read or dropped unread), abandoned partial rounds, failing adds, failing resets, premature encode/decode, into_parts -> new(Some(work)) into another family and engine; half of the histories with the poison hook armed (every byte of working memory that survives a resize is replaced by seeded noise). oracle: at every encode/decode the calls made since the last reset / dropped result are replayed on a freshly constructed object of the current configuration; every call result and the output bytes must be identical. part big_history: the same oracle on few, long shards (working spaces 1 MiB .. 256 MiB quick / 2 GiB thorough, log-uniform) with several rounds per object. non-trivial: >=2 completed rounds on the one object (the classes report how many of them had a configuration change, recycle, failed call or poison in between); distinct by full history",
+        rule: "generated histories (1..12 ops) on one encoder or decoder of every family x engine: reset to other counts / shard size / rate, complete rounds (result read or dropped unread), abandoned partial rounds, failing adds, failing resets, premature encode/decode, into_parts -> new(Some(work)) into another family and engine; half of the histories with the poison hook armed (every byte of working memory that survives a resize is replaced by seeded noise). oracle: at every encode/decode the calls made since the last reset / dropped result are replayed on a freshly constructed object of the current configuration; every call result and the output bytes must be identical. part long_life: one tiny encoder or decoder lives through 2..4 epochs of 0..3 / ~256 / ~512 / ~65536 cheap complete rounds, each followed by a real round compared with a fresh object (and with the originals), without any explicit reset (wrapping per-round counters and stamps). part big_history: the same oracle on few, long shards (working spaces 1 MiB .. 256 MiB quick / 2 GiB thorough, log-uniform) with several rounds per object. non-trivial: >=2 completed rounds on the one object (the classes report how many of them had a configuration change, recycle, failed call or poison in between); distinct by full history",
         assumptions: &[
             "an implementation does not carry knowledge about the *contents* of working memory across a resize (poison only overwrites the retained prefix, where real stale bytes live)",
             "shard contents are arbitrary bytes: the decoder is compared with a fresh decoder on the same inputs, consistency of the shards is not needed for this property",
@@ -34,12 +35,18 @@ fn parts() -> Vec<Box<dyn PartDyn>> {
     vec![
         Box::new(GenPart { name: "history", quick: 20_000, thorough: 200_000, shrink_iters: 1500, strat: strategy, check }),
         Box::new(GenPart { name: "big_history", quick: 14, thorough: 400, shrink_iters: 30, strat: big_strategy, check: check_big }),
+        Box::new(GenPart { name: "long_life", quick: 400, thorough: 1_500, shrink_iters: 60, strat: long_strategy, check: check_long }),
     ]
 }
 
 /// few, long shards: working spaces from 1 MiB to 256 MiB (quick) / 2 GiB (thorough), log-uniform,
 /// several rounds on one object with and without resets in between (size-dependent fast paths)
-fn big_strategy(t: Tier) -> BoxedStrategy<History> {
+pub fn big_strategy(t: Tier) -> BoxedStrategy<History> {
+    big_strategy_with(t, false)
+}
+
+/// `failures`: also failing adds, partial rounds and premature finishes (for the twin check of C07)
+pub fn big_strategy_with(t: Tier, failures: bool) -> BoxedStrategy<History> {
     let max_q = t.pick(4 * 28u8, 4 * 31u8);
     let cfg = move || {
         (1usize..=8, 1usize..=8, any::<bool>(), prop_oneof![1 => (4 * 20u8)..=(4 * 24u8), 3 => (4 * 24u8)..=max_q], 0usize..64).prop_map(|(bounded, other, flip, q, jitter)| {
@@ -48,8 +55,12 @@ fn big_strategy(t: Tier) -> BoxedStrategy<History> {
             RawCfg { bounded, other, flip, size: ((bytes / positions) / 2 * 2 + jitter * 2).max(2) }
         })
     };
+    let wf = if failures { 5 } else { 0 };
     let op = prop_oneof![
         6 => (any::<u64>(), gen::recv_spec()).prop_map(|(seed, recv)| Op::Round { seed, recv, read: true }),
+        // duplicates of accepted shards (with other bytes) half of the time, any failing add otherwise
+        wf => (prop_oneof![Just(5u8), Just(6u8), 0u8..7], any::<u16>(), any::<u64>()).prop_map(|(variant, raw, seed)| Op::BadAdd { variant, raw, seed }),
+        wf => (any::<u64>(), gen::recv_spec(), any::<u16>()).prop_map(|(seed, recv, n_raw)| Op::Partial { seed, recv, n_raw }),
         1 => Just(Op::ResetSame),
         1 => cfg().prop_map(Op::Reset),
         1 => (gen::kind_rate(), gen::engine(), cfg(), any::<bool>()).prop_map(|(kind, eng, cfg, same)| Op::Recycle { kind, eng, cfg, same }),
@@ -65,7 +76,7 @@ fn big_strategy(t: Tier) -> BoxedStrategy<History> {
         .boxed()
 }
 
-fn check_big(h: &History, st: &mut Stats) -> CheckResult {
+pub fn biggest_working_set(h: &History) -> usize {
     let biggest = std::iter::once(&h.init)
         .chain(h.ops.iter().filter_map(|o| match o {
             Op::Reset(c) | Op::Recycle { cfg: c, .. } => Some(c),
@@ -74,8 +85,12 @@ fn check_big(h: &History, st: &mut Stats) -> CheckResult {
         .map(|c| (c.bounded.next_power_of_two() + c.other).next_power_of_two() * c.size.div_ceil(64) * 64)
         .max()
         .unwrap_or(0);
+    biggest
+}
+
+fn check_big(h: &History, st: &mut Stats) -> CheckResult {
     // subject + fresh twin + shard inputs
-    crate::runner::with_memory_budget(biggest * 4 + (1 << 20), || check(h, st))
+    crate::runner::with_memory_budget(biggest_working_set(h) * 4 + (1 << 20), || check(h, st))
 }
 
 pub fn check(h: &History, st: &mut Stats) -> CheckResult {
@@ -225,4 +240,95 @@ pub fn brief(c: &Call) -> String {
         Call::AddR(i, s) => format!("add_recovery(index {i}, {} bytes)", s.len()),
         Call::Finish { read } => format!("finish(read={read})"),
     }
+}
+
+// ----------------------------------------------------------------------
+// long-lived objects: hundreds to ~140 000 rounds on ONE tiny encoder or decoder without explicit reset
+// (epoch lengths around 2^8 and 2^16: wrapping generation counters, stamps and similar per-round state)
+
+#[derive(Clone, Debug, PartialEq, Eq, Hash, Serialize, Deserialize)]
+pub struct LongCase {
+    pub dec: bool,
+    pub kind: Kind,
+    pub eng: Eng,
+    pub k: usize,
+    pub r: usize,
+    pub b: usize,
+    /// (number of cheap rounds, then one real round described by the spec and seed)
+    pub epochs: Vec<(u32, gen::RecvSpec, u64)>,
+}
+
+fn long_strategy(_t: Tier) -> BoxedStrategy<LongCase> {
+    let n = prop_oneof![
+        4 => 0u32..=3,
+        6 => 250u32..=260,
+        2 => 500u32..=520,
+        2 => 65_530u32..=65_540,
+    ];
+    (any::<bool>(), gen::kind_any()).prop_flat_map(move |(dec, kind)| {
+        (any::<u8>(), 1usize..=6, 1usize..=6, prop_oneof![Just(2usize), Just(64), Just(66)], prop::collection::vec((n.clone(), gen::recv_spec(), any::<u64>()), 2..=4)).prop_map(move |(eraw, k, r, b, epochs)| {
+            let fast: Vec<Eng> = [Eng::NoSimd, Eng::Ssse3, Eng::Avx2, Eng::Default].iter().copied().filter(|e| e.available()).collect();
+            let eng = if kind == Kind::Rs { Eng::Default } else { fast[(eraw as usize * fast.len()) >> 8] };
+            LongCase { dec, kind, eng, k, r, b, epochs }
+        })
+    })
+    .boxed()
+}
+
+fn check_long(c: &LongCase, st: &mut Stats) -> CheckResult {
+    let (k, r, b) = (c.k, c.r, c.b);
+    let mut obj = Obj::make(c.dec, c.kind, c.eng, Cfg { k, r, b }).map_err(|e| format!("construction failed: {e:?}"))?;
+    let cheap_data = gen::DataSpec { mode: 0, seed: 1 }.expand(k, b);
+    let mut rounds = 0u64;
+    for (ei, (cheap, recv, seed)) in c.epochs.iter().enumerate() {
+        // cheap rounds: complete, result dropped (decoder: every original given, nothing to restore)
+        for _ in 0..*cheap {
+            for (i, d) in cheap_data.iter().enumerate() {
+                let out = obj.apply(&Call::AddO(i, d.clone()))?;
+                ensure!(out.is_ok(), "round {rounds}: add rejected on an object that only ever completed rounds: {}", out.brief());
+            }
+            let out = obj.apply(&Call::Finish { read: false })?;
+            ensure!(out.is_ok(), "round {rounds}: {} failed: {}", if c.dec { "decode" } else { "encode" }, out.brief());
+            rounds += 1;
+        }
+        // a real round with new data, compared with a fresh object and (decoder) with the originals
+        let data = gen::DataSpec { mode: (ei % 2) as u8 * 5, seed: *seed }.expand(k, b);
+        let mut calls = Vec::new();
+        let mut given = Vec::new();
+        if c.dec {
+            let rec = encode_all(c.kind, c.eng, k, r, b, &data).map_err(|e| format!("encode failed: {e:?}"))?;
+            given = recv.arrival(k, r);
+            for g in &given {
+                calls.push(if g.rec { Call::AddR(g.idx, rec[g.idx].clone()) } else { Call::AddO(g.idx, data[g.idx].clone()) });
+            }
+        } else {
+            for (i, d) in data.iter().enumerate() {
+                calls.push(Call::AddO(i, d.clone()));
+            }
+        }
+        calls.push(Call::Finish { read: true });
+        let mut fresh = Obj::make(c.dec, c.kind, c.eng, Cfg { k, r, b }).map_err(|e| format!("construction failed: {e:?}"))?;
+        let mut last = None;
+        for call in &calls {
+            let o = obj.apply(call)?;
+            let of = fresh.apply(call)?;
+            if o != of {
+                fail!(
+                    "after {rounds} completed rounds on one {} (no explicit reset): {} gives {} but a fresh object gives {} (family {}, engine {}, {k}+{r} x {b})",
+                    if c.dec { "decoder" } else { "encoder" }, brief(call), o.brief(), of.brief(), c.kind.name(), c.eng.name()
+                );
+            }
+            last = Some(o);
+        }
+        if let Some(Outcome::Dec(Ok(Some(m)))) = &last {
+            crate::props::c01::check_restored(k, b, &given, &data, m)?;
+        }
+        rounds += 1;
+    }
+    st.classf("subject", if c.dec { "decoder" } else { "encoder" });
+    st.classf("rounds_log2", 64 - rounds.leading_zeros());
+    if rounds >= 256 {
+        st.nontrivial_case("long_life", c);
+    }
+    Ok(())
 }
